@@ -54,6 +54,10 @@ def generate(rng, tier):
         if i % 10 == 0:
             x = sorted(round(0.01 * rng.randint(1, 3000), 2) for _ in range(m))
         w = i % 8
+        if i % 20 == 6 and m >= 2:
+            # an undefined ordinate (NaN / infinite) in the stored curve: every point is still written, one row each
+            y[m // 2] = float("nan") if (i // 20) % 2 == 0 else float("inf")
+            w = 6 + (i // 20) % 2 if (i // 40) % 2 == 0 else w
         cases.append({"x": x, "y": y, "writer": w, "explicit": bool((i // 8) % 2), "stem": rng.choice(["out", "merged", "a_b.c", "s1", "sub/run7"]),
                       "fn": i % 3, "desc": {"writer": WRITERS[w][0], "explicit_name": bool((i // 8) % 2), "n": m, "grid_x": i % 10 == 0}})
     # re-ingestion of a written merged S(Q)
@@ -110,7 +114,7 @@ def run_impl(pystog, case):
 
 
 def to_coq(case, res):
-    if "exception" in res or not res.get("bytes") or len(res.get("x", [])) == 0:      # (an empty curve: header only, decided by the oracle)
+    if "exception" in res or not res.get("bytes") or len(res.get("x", [])) == 0 or any(v != v or abs(v) == float("inf") for v in res.get("y", [])):      # (an empty curve: header only, decided by the oracle)
         return None
     return ([res["x"], res["y"], res["rx"], res["ry"]], [], res["bytes"], [])
 
